@@ -29,13 +29,17 @@ trusted_base = [
 assumptions = ["streams obey the Runner contract", "known-finding classes K12a-K12d are excluded by hypothesis and reported"]
 
 
-def gen_pipe(rng, scen_ids):
+def gen_pipe(rng, scen_ids, events=()):
     inner = statspipe.LEAF if rng.random() < 0.5 else {"normalize": statspipe.LEAF}
     p = {"summarize": inner}
     if rng.random() < 0.35:
         p = {"fos": None if rng.random() < 0.6 else [s for s in scen_ids if rng.random() < 0.5], "p": p}
     if rng.random() < 0.3:
-        p = {"repeat": rng.choice(["skipped", "failed"]), "p": p}
+        f = rng.choice(["skipped", "failed", "custom"])
+        if f == "custom":
+            # a user filter: any events, often including the run-level brackets (run-Finished is then re-delivered)
+            f = [e["meta"] for e in events if rng.random() < 0.3 or (e["ev"][0] in ("Started", "Finished") and rng.random() < 0.7)]
+        p = {"repeat": f, "p": p}
     return p
 
 
@@ -43,7 +47,7 @@ def gen_one(rng):
     feats = statspipe.stats_features(rng)
     events = statspipe.stats_stream(rng, feats)
     scen_ids = [s["id"] for f in feats for _, s in gens.all_scenarios(f)]
-    return dict(features=feats, pipe=gen_pipe(rng, scen_ids), events=events)
+    return dict(features=feats, pipe=gen_pipe(rng, scen_ids, events), events=events)
 
 
 def gen(rng, tier):
